@@ -168,10 +168,18 @@ fn run_case<'a>(ctx: &'a Ctx, case: u64, acc: &'a mut Acc) -> CaseFut<'a> {
         let mut kinds: Vec<String> = Vec::new();
         let (mut had_deletion, mut had_pull_change, mut had_concurrent) = (false, false, false);
         let t_start = sc.t;
-        for _ in 0..n_ops {
+        for step in 0..n_ops {
             let tick = sc.random_tick(&mut rng);
             sc.apply(&tick).await;
             let k = rng.gen_range(0..100);
+            // every history starts with a row that is alone of its entity in the room, then moved to the second room:
+            // the (room, entity, day) it leaves becomes empty
+            let forced_op = match step {
+                0 => Some(Op::Create { peer: 0, entity: 2 }),
+                1 => Some(Op::Move { peer: 0, row: sc.rows.len().saturating_sub(1), to_second: true }),
+                _ => None,
+            };
+            let k = if forced_op.is_some() { 99 } else { k };
             let n_peers = 2;
             if k < 10 {
                 // room definition change by the admin (peer 0)
@@ -218,6 +226,7 @@ fn run_case<'a>(ctx: &'a Ctx, case: u64, acc: &'a mut Acc) -> CaseFut<'a> {
                 let peer = rng.gen_range(0..n_peers);
                 let writers = rng.gen_range(8..24);
                 let before = sc.peers[peer].snapshot().await;
+                logs[peer].lock().unwrap().data.clear();
                 let room_ids: Vec<String> = rooms.iter().map(|r| b64(r)).collect();
                 let futs = (0..writers).map(|i| {
                     let p = &sc.peers[peer];
@@ -253,7 +262,9 @@ fn run_case<'a>(ctx: &'a Ctx, case: u64, acc: &'a mut Acc) -> CaseFut<'a> {
                 }
                 continue;
             }
-            let op = if k < 40 {
+            let op = if let Some(f) = forced_op {
+                f
+            } else if k < 40 {
                 if rng.gen_bool(0.2) {
                     Op::Pull2 { dst: rng.gen_range(0..2), src: rng.gen_range(0..2) }
                 } else {
@@ -276,6 +287,11 @@ fn run_case<'a>(ctx: &'a Ctx, case: u64, acc: &'a mut Acc) -> CaseFut<'a> {
             let mut befores = Vec::new();
             for p in &affected {
                 befores.push(sc.peers[*p].snapshot().await);
+            }
+            // only what is announced from now on counts for this operation (an earlier announcement of the same room,
+            // entity and day says nothing about it)
+            for p in &affected {
+                logs[*p].lock().unwrap().data.clear();
             }
             let out = sc.apply(&op).await;
             let kind = format!("{:?}", op).split_whitespace().next().unwrap_or("").to_string();
